@@ -179,6 +179,12 @@ def oracle_stream_content(case, impl):
                                          "text": f"FIN carries seq {fin_seq}, last data segment was {last_data_seq}"})
                 elif d["seq"] != fin_seq:
                     hits.append({"sig": {"oracle": "stream", "what": "fin_seq_changed"}, "text": f"FIN retransmitted with seq {d['seq']} (was {fin_seq})"})
+                elif ev["fp"].get("st", "").startswith("FinWait1") and not ev.get("res", "").startswith("ready:err") \
+                        and next_pos != ev["accepted_total"]:
+                    # a segment before the FIN was re-split after the FIN had been numbered (D27): the tail of its bytes
+                    # is owed to no sequence number any more
+                    hits.append({"sig": {"oracle": "stream", "what": "fin_resent_while_resplit_bytes_are_owed"},
+                                 "text": f"FIN (seq {fin_seq}) re-sent on the endpoint's own initiative while {ev['accepted_total'] - next_pos} accepted bytes are carried by no sequence number any more (the segment before the FIN was re-segmented, its tail would need the FIN's number)"})
         if len(hits) >= 3:
             break
     return [classify(h) for h in hits[:3]]
